@@ -162,6 +162,7 @@ def run(S):
                                                       (a.x[i][0] - a.xLoc) * (a.x[i][0] - a.xLoc) + (a.x[i][1] - a.yLoc) * (a.x[i][1] - a.yLoc), 1e-12)) for i in range(2)]))
 
     _mortar(S, MortarContact)
+    _mortar_assembly(S, MortarContact)
     bounded(S)
 
 
@@ -227,6 +228,52 @@ def _mortar(S, MC):
           tm.and_(one - Lo <= l * (LA + LB) / 2, Lo - one <= l * (LA + LB) / 2))
     S.add(q2 + '/vanishes_when_the_overlap_interval_is_a_single_point', hy2 + [tm.eq(xiA[0], xiA[1]), tm.eq(xiB[0], xiB[1])], tm.eq(val, 0))
     S.canary(q2, hy2)
+
+
+PROBES = ((0.0, 0.0, 1.0), (1.0, 0.0, 1.0), (0.0, 1.0, 1.0), (0.25, 0.75, 2.0), (0.5, 0.125, -3.0))
+
+
+def _mortar_assembly(S, MC):
+    """nodal assembly of the pair integrals (assemble_nodal_areas / assemble_area_weighted_gaps): the pair integral is the callee
+    (its own clauses are above and in the bounded stand-in), replaced by an uninterpreted function of the two deformed segments
+    that is indexed by the integrand it was handed (identified on probe points). Clause: node n of the receiving surface gets,
+    for every receiving segment it is the first (second) node of and every neighbour listed for that segment, the pair integral
+    of weight x (1 - xi) (weight x xi) with xi the parameter along the RECEIVING segment, taken over the deformed coordinates."""
+    for nm in ('assembly_mortar_integral', 'assemble_area_weighted_gaps', 'assemble_nodal_areas'):
+        S.function('MortarContact.' + nm, getattr(MC, nm), 'J')
+    NN = 6
+    segB = [[0, 1], [1, 2]]
+    segA = [[3, 4], [4, 5], [5, 3]]
+    neigh = [[0, 1], [2, 1]]
+    X, U = J.sym_array('Xm', (NN, 2)), J.sym_array('Um', (NN, 2))
+    names = {}
+
+    def name_of(func):
+        sig = tuple(float(func(*pr)) for pr in PROBES)
+        return names.setdefault(sig, 'pairIntegral%d' % len(names))
+
+    def stub(edge1, edge2, f_normal, func, relativeSmoothingSize=1e-7):
+        assert float(relativeSmoothingSize) == 1e-9
+        return J.uf(name_of(func), edge1[0, 0], edge1[0, 1], edge1[1, 0], edge1[1, 1], edge2[0, 0], edge2[0, 1], edge2[1, 0], edge2[1, 1])
+    real = MC.integrate_with_mortar
+    for which, weight in (('assemble_area_weighted_gaps', lambda gap: gap), ('assemble_nodal_areas', lambda gap: 1.0)):
+        MC.integrate_with_mortar = stub
+        try:
+            field = J.to_obj(J.symbolic_call(lambda X_, U_: getattr(MC, which)(X_, U_, jnp.array(segA), jnp.array(segB), jnp.array(neigh), MC.compute_average_normal), X, U))
+        finally:
+            MC.integrate_with_mortar = real
+        left = name_of(lambda xi1, xi2, gap: weight(gap) * (1.0 - xi1))
+        right = name_of(lambda xi1, xi2, gap: weight(gap) * xi1)
+        x = lambda n, c: X[n, c] + U[n, c]
+        want = [tm.ZERO] * NN
+        for b, (n0, n1) in enumerate(segB):
+            for k in neigh[b]:
+                a0, a1 = segA[k]
+                args = (x(n0, 0), x(n0, 1), x(n1, 0), x(n1, 1), x(a0, 0), x(a0, 1), x(a1, 0), x(a1, 1))
+                want[n0] = want[n0] + tm.app(left, args)
+                want[n1] = want[n1] + tm.app(right, args)
+        S.add('MortarContact.%s/node_receives_the_hat_weighted_pair_integrals_of_its_segments_over_the_deformed_coordinates' % which, [],
+              tm.and_(*[tm.eq(field[n], want[n]) for n in range(NN)]))
 
 
 def bounded(S):
